@@ -100,4 +100,51 @@ H_ALL(msm::back::NoHistory)
 template void h_use<h_machines<h_mp11, void>>();
 H_ALL(msm::back::AlwaysHistory)
 H_ALL(msm::back::ShallowHistory<mpl::vector<h_resume>>)
+// ---- a three-region submachine entered by a fork that names two of the three regions, by a single direct entry and through an entry
+//      point; the un-named regions must follow the history policy (also "no history": restart from the initial state)
+struct h_fork2 {}; struct h_one {}; struct h_pseudo {}; struct h_inner {};
+template <template <class, class> class Back>
+struct h3_machines
+{
+    struct Sub_ : public msm::front::state_machine_def<Sub_>
+    {
+        struct A1 : h_st {}; struct A2 : h_st, msm::front::explicit_entry<0> {};
+        struct B1 : h_st {}; struct B2 : h_st, msm::front::explicit_entry<1> {};
+        struct C1 : h_st {}; struct C2 : h_st {};
+        struct PE : msm::front::entry_pseudo_state<2> {};
+        typedef mpl::vector<A2, B2> explicit_creation;
+        typedef mpl::vector<A1, B1, C1> initial_state;
+        template <class Event, class FSM> void on_entry(Event const&, FSM&) {}
+        template <class Event, class FSM> void on_exit(Event const&, FSM&) {}
+        struct transition_table : mpl::vector<
+            msm::front::Row<C1, h_step, C2, msm::front::none, msm::front::none>,
+            msm::front::Row<PE, h_pseudo, C2, h_act, msm::front::none>
+        > {};
+        template <class FSM, class Event> void no_transition(Event const&, FSM&, int) {}
+    };
+    typedef typename Back<Sub_, void>::type Sub;
+    struct Top_ : public msm::front::state_machine_def<Top_>
+    {
+        struct Idle : h_st {};
+        typedef Idle initial_state;
+        struct transition_table : mpl::vector<
+            msm::front::Row<Idle, h_fork2, mpl::vector<typename Sub::template direct<typename Sub_::A2>, typename Sub::template direct<typename Sub_::B2> >, msm::front::none, msm::front::none>,
+            msm::front::Row<Idle, h_one, typename Sub::template direct<typename Sub_::B2>, msm::front::none, msm::front::none>,
+            msm::front::Row<Idle, h_pseudo, typename Sub::template entry_pt<typename Sub_::PE>, msm::front::none, msm::front::none>,
+            msm::front::Row<Sub, h_leave, Idle, msm::front::none, msm::front::none>
+        > {};
+        template <class FSM, class Event> void no_transition(Event const&, FSM&, int) {}
+    };
+    typedef typename Back<Top_, void>::type Top;
+};
+template <class W> void h3_use()
+{
+    typename W::Top m; m.start();
+    m.process_event(h_fork2()); m.process_event(h_step()); m.process_event(h_leave());
+    m.process_event(h_fork2()); m.process_event(h_leave()); m.process_event(h_one()); m.process_event(h_leave()); m.process_event(h_pseudo());
+    m.stop();
+}
+template void h3_use<h3_machines<h_back>>();
+template void h3_use<h3_machines<h_back11>>();
+template void h3_use<h3_machines<h_mp11>>();
 }
